@@ -61,8 +61,8 @@ def step (g : Graph) (j : Json) : Graph × Json :=
     match Driver.Store.resolveKey g dp, Driver.Store.resolveKey g sp with
     | some d, some k => Driver.Store.applyG g (copyProperty g g d k name keep)
     | _, _ => (g, Driver.bad "paths")
-  -- `SourceLinkContainer.append` tests the source *object* (fix a440b8d): differs from the id test of the shared
-  -- `contAppend` only after an id-keeping copy (`Props/C20.contAppend20_refines`)
+  -- `SourceLinkContainer.append` tests the source *object* (fix a440b8d); the shared `contAppend` makes that test
+  -- itself (`inSourceTreeObj`), `contAppend20` is another name for it (`Props/C20.contAppend20_refines`)
   | [.str "append", pj, .str cname, kj] =>
     match Driver.Store.parsePath pj with
     | none => (g, Driver.bad "path")
